@@ -557,7 +557,9 @@ impl BuildHasher for ConstState {
 
 fn gen_keys<T: Dyn + Ord>(g: &mut Gen, d: u32) -> Vec<T> {
     // distinct keys, in random (generation) order
-    let v = gen_vec::<T>(g, d);
+    let mut v = gen_vec::<T>(g, d);
+    // keyed collections stay moderate: the model's sort / collect are quadratic
+    v.truncate(300);
     let mut out: Vec<T> = Vec::new();
     for x in v {
         if !out.iter().any(|y| y.cmp(&x) == core::cmp::Ordering::Equal) {
@@ -622,7 +624,7 @@ impl<T: Dyn + Hash + Eq> Dyn for indexmap::IndexSet<T> {
         format!("(seq indexSet {})", T::ty())
     }
     fn gen(g: &mut Gen, d: u32) -> Self {
-        gen_vec::<T>(g, d).into_iter().collect()
+        gen_vec::<T>(g, d).into_iter().take(300).collect()
     }
     fn val(&self, o: &mut String) {
         list(o, self.iter(), |x, o| x.val(o));
@@ -716,7 +718,7 @@ impl<K: Dyn + Hash + Eq, V: Dyn> Dyn for indexmap::IndexMap<K, V> {
         format!("(map index {} {})", K::ty(), V::ty())
     }
     fn gen(g: &mut Gen, d: u32) -> Self {
-        gen_vec::<K>(g, d).into_iter().map(|k| (k, V::gen(g, d + 1))).collect()
+        gen_vec::<K>(g, d).into_iter().take(300).map(|k| (k, V::gen(g, d + 1))).collect()
     }
     fn val(&self, o: &mut String) {
         entries(o, self.iter(), false);
